@@ -6,7 +6,7 @@ cd /verif && /venv/bin/python - "$t/r" "$kind" <<'P'
 import sys
 from allfedsa import probes
 root, kind = sys.argv[1], sys.argv[2]
-f = probes.rewrite_tree if kind in ("swap-else", "range0", "flip-compare", "keywordise", "positionalise") else probes.rewrite_statements
+f = probes.rewrite_signatures if kind in ("reorder-params", "rename-params") else probes.rewrite_tree if kind in ("swap-else", "range0", "flip-compare", "keywordise", "positionalise") else probes.rewrite_statements
 print(kind, "sites:", f(root, kind))
 P
 ev=$(mktemp -d /tmp/ref_ev_XXXXXX)
